@@ -291,6 +291,80 @@ def run(ctx):
     n_get = len([c for c in getc if any(isinstance(x, tuple) and x[0] == 'field' and x[2] == 'backends' for x in walk(wm.expr_of_call(c['term'])[2][0]))])
     iters = [c for c in wm.calls(lambda r: r['path'] and re.search(MAPM('iter|values|keys|into_iter'), r['path']))]
     ctx.ob(['C14'], 'R-EXPR', 'C14-D5|rust-backend-only', okb and n_get == 1 and not iters, 'prologues and epilogues are taken from backends["rust"] only (one keyed lookup with the literal "rust", the map is never iterated)', where)
+    BAD_SEQ = r'Iterator::(rev|skip|take|filter|step_by|last|nth|max|min|skip_while|take_while|max_by\w*|min_by\w*)$|::sort|::dedup|::reverse|::truncate|::swap|::retain'
+
+    def section_closure_ok(pc, nm):
+        """the per-backend projection: the backend's own `prologue` / `epilogue` Option (seen through reference adapters)"""
+        pf = P.fns.get(pc[1]) if pc and pc[0] in ('closure', 'fnref') else None
+        if pf is None or pf.switches():
+            return False
+        ex_ = [strip(expand(pf, x['expr'])) for x in pf.exits()]
+        if len(ex_) != 1:
+            return False
+        x = ex_[0]
+        while x[0] == 'call' and x[2] and re.search(r'(Option::<T>::(as_ref|as_deref)|::as_deref|::as_ref|::deref|::into_iter|Option::<T>::iter|::as_str|::borrow)$', x[1]):
+            x = strip(x[2][0])
+        return x[0] == 'field' and x[2] == nm and strip(x[1])[0] in ('arg', 'field', 'payload')
+
+    def joined_in_helper(e, nm):
+        """join written as a helper: H(backends, |b| b.<nm>.as_deref()) where H pushes section(b) for every backend that has one,
+        in order, and joins with a newline.  Returns (ok, detail) or None if `e` is not such a call"""
+        e = strip(e)
+        if not (e[0] == 'call' and e[1] in P.fns):
+            return None
+        H = P.fns[e[1]]
+        ex_ = [strip(x['expr']) for x in H.exits()]
+        if len(ex_) != 1:
+            return False, 'helper %s has several exits' % short(H.id)
+        j = ex_[0]
+        if j[0] == 'var':
+            sj = string_join_loop(H, j[1])
+            if sj:
+                # separator-before-every-element-but-the-first loop over SRC: SRC must be backends.iter().filter_map(section)
+                src = strip(sj['source'])
+                sepok = strip(sj['sep']) == ('int', 10, 'char')
+                unad = is_call(src, 'Iterator::filter_map') and is_call(strip(src[2][0]), 'slice::<impl [T]>::iter') and strip(strip(src[2][0])[2][0])[0] == 'arg' and strip(src[2][1])[0] == 'arg'
+                textok = strip(sj['elem'])[0] == 'field' and strip(sj['elem'])[2] == '1'
+                if not (sepok and unad and textok):
+                    return False, 'helper %s: separator loop of unexpected shape (sep %s, source %s)' % (short(H.id), show(sj['sep']), show(src)[:80])
+                ib = strip(strip(src[2][0])[2][0])[1] - 1
+                isec = strip(src[2][1])[1] - 1
+                base = expand(wm, e[2][ib])
+                okbase = any(re.search(MAPM('get'), c_[1]) and ('str', 'rust') in list(walk(c_)) and any(isinstance(y, tuple) and y[0] == 'field' and y[2] == 'backends' for y in walk(c_)) for c_ in calls_in(base)) and \
+                    not any(re.search(BAD_SEQ, c_[3]) for c_ in calls_in(base))
+                oksec = section_closure_ok(strip(e[2][isec]), nm)
+                return (okbase and oksec), 'helper %s (separator loop; backends[rust] whole list: %s, section = backend.%s: %s)' % (short(H.id), okbase, nm, oksec)
+        if not (j[0] == 'call' and j[1].endswith('::join') and len(j[2]) == 2 and ('str', '\n') in list(walk(j[2][1]))):
+            return False, 'helper %s does not join with a newline' % short(H.id)
+        v = strip(j[2][0])
+        while v[0] == 'call' and v[2] and re.search(r'(::deref|::as_slice|::as_ref)$', v[1]):
+            v = strip(v[2][0])
+        lb = loop_built(H, v[1]) if v[0] == 'var' else None
+        if not lb:
+            return False, 'helper %s: joined vector is not built by a single push loop' % short(H.id)
+        src = strip(lb['source'])
+        unad = is_call(src, 'slice::<impl [T]>::iter') and strip(src[2][0])[0] == 'arg'
+        elem = strip(lb['elem'])
+        # elem = payload Some of section(backend) ; skipped exactly when section(backend) is None
+        call_ = elem[1] if elem[0] == 'payload' and elem[2] == 'Some' else None
+        okcall = call_ is not None and is_call(strip(call_), 'Fn::call') and strip(strip(call_)[2][0])[0] == 'arg' and \
+            any(isinstance(y, tuple) and y[0] == 'payload' and y[2] == 'Some' and is_call(strip(y[1]), 'Iterator::next') for y in walk(strip(call_)[2][1]))
+        skips = loop_skip_paths(H, lb) if lb['filtered'] else []
+        okskip = (not lb['filtered']) or (len(skips) == 1 and len(skips[0]) == 1 and skips[0][0][1] == 'None' and skips[0][0][0][0] == 'discr' and call_ is not None and strip(skips[0][0][0][1]) == strip(call_))
+        if not (unad and okcall and okskip):
+            return False, 'helper %s: loop over the whole slice %s, pushes section(b) %s, skips only when it is None %s' % (short(H.id), unad, okcall, okskip)
+        ib = strip(src[2][0])[1] - 1
+        isec = strip(strip(call_)[2][0])[1] - 1
+        base = expand(wm, e[2][ib])
+        okbase = any(re.search(MAPM('get'), c_[1]) and ('str', 'rust') in list(walk(c_)) and any(isinstance(y, tuple) and y[0] == 'field' and y[2] == 'backends' for y in walk(c_)) for c_ in calls_in(base)) and \
+            not any(re.search(BAD_SEQ, c_[3]) for c_ in calls_in(base))
+        for y in walk(base):
+            if isinstance(y, tuple) and y[0] == 'closure' and y[1] in P.fns:
+                for ex2 in P.fns[y[1]].exits():
+                    okbase = okbase and not any(re.search(BAD_SEQ, c_[3]) for c_ in calls_in(expand(P.fns[y[1]], ex2['expr'])))
+        oksec = section_closure_ok(strip(e[2][isec]), nm)
+        return (okbase and oksec), 'helper %s(backends[rust] whole list: %s, section = backend.%s: %s)' % (short(H.id), okbase, nm, oksec)
+
     for nm in ('prologue', 'epilogue'):
         vs = [a for k, a in [(what(a), a) for c, a in writes] if k == nm]
         ok = False
@@ -299,8 +373,16 @@ def run(ctx):
             cands = [vs[0]] + [expand(wm, d) for x in walk(vs[0]) if isinstance(x, tuple) and x[0] == 'var' for d in wm.init_of(x[1])]
             for e in cands:
                 e = expand(wm, e)
-                if find_calls(e, 'join'):
-                    j = find_calls(e, 'join')[0]
+                hj = None
+                for y in walk(e):
+                    if isinstance(y, tuple) and y and y[0] == 'call' and y[1] in P.fns and P.fns[y[1]].raw.get('output', '') == 'std::string::String':
+                        hj = hj or joined_in_helper(y, nm)
+                joins_ = [c_ for c_ in calls_in(e) if c_[1].endswith('::join') and c_[1] not in P.fns]
+                if hj is not None and not joins_:
+                    ok, det = hj
+                    break
+                if joins_:
+                    j = joins_[0]
                     chain = [c_[3] for c_ in calls_in(j)]
                     det = [short(c_) for c_ in chain]
                     inner_ok = True
